@@ -1082,8 +1082,9 @@ class Simulation:
     def save_results(self, results=None):
         """Save the :attr:`results` to an output file.
 
-        Performs a "safe" overwrite of :attr:`output_filename` by first moving the old file
-        to :attr:`_backup_filename`, then writing the new file, and finally removing the backup.
+        Performs a "safe" overwrite of :attr:`output_filename` by first writing the new file under
+        a temporary name, then moving the old file to :attr:`_backup_filename` and the new file to
+        :attr:`output_filename`, and finally removing the backup.
 
         Parameters
         ----------
@@ -1101,21 +1102,24 @@ class Simulation:
             return results  # don't save to disk
         start_time = time.time()
 
-        if output_filename.exists():
-            # keep a single backup, previous backups are overwritten.
-            if backup_filename is not None:
-                if backup_filename.exists():
-                    backup_filename.unlink()  # remove if exists
-                output_filename.rename(backup_filename)
-            else:
+        if backup_filename is not None:
+            # "safe" write: the new file is written under a temporary name and only moved to
+            # `output_filename` once it is complete, such that `output_filename` and `backup_filename`
+            # never hold a partially written file, even if a crash during a previous save left both.
+            tmp_filename = output_filename.with_suffix('.tmp' + output_filename.suffix)
+            self._save_to_file(results, tmp_filename)
+            if output_filename.exists():
+                # keep a single backup, previous backups are overwritten.
+                os.replace(output_filename, backup_filename)
+            os.replace(tmp_filename, output_filename)
+            if backup_filename.exists():
+                # successfully saved, so we can safely remove the old backup
+                backup_filename.unlink()
+        else:
+            if output_filename.exists():
                 output_filename.unlink()  # remove
-
-        # actually save the results to disk
-        self._save_to_file(results, output_filename)
-
-        if backup_filename is not None and backup_filename.exists():
-            # successfully saved, so we can safely remove the old backup
-            backup_filename.unlink()
+            # actually save the results to disk
+            self._save_to_file(results, output_filename)
 
         self._last_save = time.time()
         self.logger.info('saving results to disk; took %.1fs', self._last_save - start_time)
